@@ -227,7 +227,7 @@ CLAIMED = {
          "Soundness of the collection against the interpreter, for EVERY line: RefsSound.waits_are_collected (mutual induction over eval/exec, any store, "
          "any fuel) - whatever name a line can wait for (a line, RNeedV; an input, RNeedI) is qualify(s) for a string s that matches the pieces of a "
          "reference the analysis collected from a read node of that line (literal parts as written; alternative sets read as wildcards); per year "
-         "C10_waits_collected_<year> instantiates it for every line of the regenerated catalogue (the analysis never exhausts its own fuel: checked in the kernel); second clause: a line that ends in an attribute error has a KAttrErr reference among those collected, which names_ok never accepts outside the known findings.",
+         "C10_waits_collected_<year> instantiates it for every line of the regenerated catalogue (the analysis never exhausts its own fuel: checked in the kernel); second clause: a line that ends in an attribute error has a KAttrErr reference among those collected, which names_ok never accepts outside the known findings; third clause: the assertion of Form.threshold (RCrash CThreshold) comes only from a collected KThreshold reference.",
     design_ref='DESIGN.md §4 C10',
     note="Finite, exhaustive, decided by computation in the kernel. Soundness of the analysis w.r.t. the interpreter is proved for the names a line can wait for "
          "(weak matching: that a loop variable's value lies among the collected alternatives, and the threshold / form() / attribute references, are still "
